@@ -16,7 +16,9 @@ RULE = ('cases = (host, x pattern, N, num_knots, spline_degree, diff_order, lam,
         'Boor definition of B on the captured knots (iasls / drpls / aspls extras; Kronecker form in 2-D) with the weights in force at that '
         'step (recorded from the reweighting rule); returned B c against the exact B c; knots against an independent recomputation '
         '(equally spaced, spanning the x-range); converged runs: returned baseline with returned weights; non-trivial = more points than '
-        'bases or a rank-deficient B\'WB repaired by the penalty; distinct by canonical tuple')
+        'bases or a rank-deficient B\'WB repaired by the penalty; distinct by canonical tuple; further stage: the banded (lhs, rhs) that '
+        'solve_pspline hands to PenalizedSystem.solve in pspline_iasls / pspline_drpls / pspline_aspls (every banded_solver) against the '
+        'Lean assembly models asmPIasls / asmPDrpls / asmPAspls, within (N + 16 (degree + 1) + 64) eps of the largest term')
 ASSUMPTIONS = [
     'the banded / sparse solvers (LAPACK, pentapy, SuperLU) are trusted only through the exact normwise backward error of each output: '
     'threshold 1e-11 (measured on the unchanged tree: see notes; a mis-assembled band gives > 1e-6)',
@@ -39,6 +41,7 @@ class Capture:
         self.solves = []
         self.rules = []
         self.saved = []
+        self.system = None
 
     def __enter__(self):
         from pybaselines import _spline_utils as su, _weighting as W
@@ -48,14 +51,25 @@ class Capture:
 
         def solve_pspline(obj, y, weights, penalty=None, rhs_extra=None):
             y0, w0 = np.array(y, dtype=float, copy=True), np.array(weights, dtype=float, copy=True)
+            cap.system = None
             out = orig(obj, y, weights, penalty, rhs_extra)
-            cap.solves.append({'y': y0, 'w': w0, 'coef': np.array(obj.coef, copy=True), 'out': np.array(out, copy=True),
+            cap.solves.append({'y': y0, 'w': w0, 'coef': np.array(obj.coef, copy=True), 'out': np.array(out, copy=True), 'system': cap.system,
                                'knots': np.array(obj.basis.knots, copy=True), 'deg': int(obj.basis.spline_degree),
                                'x': np.array(obj.basis.x, copy=True), 'd': int(obj.diff_order), 'lam': float(np.asarray(obj.lam)),
                                'num_knots': int(obj.basis.num_knots), 'custom_penalty': penalty is not None, 'extra': rhs_extra is not None})
             return out
         su.PSpline.solve_pspline = solve_pspline
         self.saved.append((su.PSpline, 'solve_pspline', orig))
+        from pybaselines import _banded_utils as bu
+        orig_solve = bu.PenalizedSystem.solve
+
+        def solve(obj, lhs, rhs, *a, **k):
+            if isinstance(obj, su.PSpline):
+                # `solve_pspline` passes overwrite_ab=True: copy first
+                cap.system = {'lhs': np.array(lhs, dtype=float, copy=True), 'rhs': np.array(rhs, dtype=float, copy=True), 'lower': bool(obj.lower)}
+            return orig_solve(obj, lhs, rhs, *a, **k)
+        bu.PenalizedSystem.solve = solve
+        self.saved.append((bu.PenalizedSystem, 'solve', orig_solve))
         orig2 = su2.PSpline2D.solve
 
         def solve2(obj, y, weights, penalty=None, rhs_extra=None):
@@ -130,6 +144,50 @@ def knots_problem(knots, x, num_knots, deg):
 def berr_line(kind, sv, w, aux, p1):
     return (f'c07.berr {KIND[kind]} {sv["deg"]} {sv["d"]} {q(sv["lam"])} {q(p1)} {qs(sv["knots"])} {qs(sv["x"])} {qs(sv["y"])} {qs(w)} '
             f'{qs(aux) if len(aux) else "-"} {qs(sv["coef"])}')
+
+
+def asmx_line(kind, sv, w, aux, p1):
+    """the Lean assembly model of the system `solve_pspline` hands to the banded solver (iasls / drpls / aspls)"""
+    return (f'c07.asmx {KIND[kind]} {sv["deg"]} {sv["d"]} {q(sv["lam"])} {q(p1)} {int(sv["system"]["lower"])} {qs(sv["knots"])} {qs(sv["x"])} '
+            f'{qs(sv["y"])} {qs(w)} {qs(aux) if len(aux) else "-"}')
+
+
+def asmx_compare(r, sv, kind, vec=None, p1=0.0):
+    """None if the captured (lhs, rhs) agree with the model's answer `r`, else a description.  Entries are sums of at most four
+    terms (B'WB, lam D'D, D1 / lam_1 terms, the row-scaled product), each evaluated in floating point with a few roundings, and may
+    cancel; a B'WB / B'Wy entry accumulates up to N products of two de Boor values (a few roundings per degree each) and a weight: the
+    tolerance is (N + 16 (degree + 1) + 64) eps relative to the largest term (measured: 3 eps), plus the sensitivity of np.interp to the
+    rounding of the midpoints for drpls / aspls (below).  pspline_iasls: SciPy stores B'D1'D1B only up to its last non-zero
+    diagonal, the model keeps every band; zero rows denote nothing, so the captured array is padded with zero rows first."""
+    from math import comb
+    a, b_ = r.split('|')
+    pred = np.array([[float(v) for v in parse_qs(row)] for row in a.split(';')])
+    prhs = np.array([float(v) for v in parse_qs(b_)])
+    lhs, rhs, lower = sv['system']['lhs'], sv['system']['rhs'], sv['system']['lower']
+    if kind == 'iasls' and pred.shape[0] > lhs.shape[0] and (lower or (pred.shape[0] - lhs.shape[0]) % 2 == 0):
+        k = pred.shape[0] - lhs.shape[0]
+        z = np.zeros((k if lower else k // 2, lhs.shape[1]))
+        lhs = np.concatenate((lhs, z)) if lower else np.concatenate((z, lhs, z))
+    if pred.shape != lhs.shape or prhs.shape != rhs.shape:
+        return f'shape {lhs.shape} / {rhs.shape} instead of {pred.shape} / {prhs.shape}', 0.0
+    scale = max(float(np.max(np.abs(pred))), abs(sv['lam']) * comb(2 * sv['d'], sv['d']))
+    err = float(np.max(np.abs(pred - lhs))) / scale
+    rscale = max(float(np.max(np.abs(prhs))), float(np.max(np.abs(sv['y']))) * 1e-300)
+    err2 = float(np.max(np.abs(prhs - rhs))) / max(rscale, 1e-300)
+    tol = (len(sv['x']) + 16 * (sv['deg'] + 1) + 64) * EPS
+    if kind in ('drpls', 'aspls') and vec is not None and len(vec) > 1:
+        # np.interp is evaluated at the FLOAT midpoints (even degree: 0.5 * (t[i] + t[i+1]), off the exact midpoint by up to an ulp of the
+        # knots), the model at the exact ones; interp changes by at most (largest slope of the interpolated array) * (that offset), and
+        # the result multiplies lam * D'D (times eta for drpls)
+        dx = np.diff(sv['x'])
+        ok = dx > 0
+        if np.any(ok):
+            slope = float(np.max(np.abs(np.diff(np.asarray(vec, dtype=float))[ok]) / dx[ok]))
+            offs = float(np.spacing(np.max(np.abs(sv['knots']))))
+            tol += 2 * slope * offs * (abs(p1) if kind == 'drpls' else 1.0) * abs(sv['lam']) * comb(2 * sv['d'], sv['d']) / scale
+    if err > tol or err2 > tol:
+        return f'lhs differs by {err:.3g}, rhs by {err2:.3g} (relative to the largest term)', max(err, err2)
+    return None, max(err, err2)
 
 
 def mat(a):
@@ -227,6 +285,10 @@ def correspond(ctx):
                 lines.append(berr_line(kind, sv, wk, alpha if kind == 'aspls' else [], p1))
                 metas.append(('berr', m))
                 add_bc(sv, m)
+                if kind != 'std' and sv['system'] is not None:
+                    lines.append(asmx_line(kind, sv, wk, alpha if kind == 'aspls' else [], p1))
+                    metas.append(('asmx', m, sv, kind, np.array(alpha if kind == 'aspls' else wk, copy=True), p1))
+                    ctx.count('asmx:' + kind)
                 if kind == 'aspls':
                     rr = np.abs(sv['y'] - sv['out'])
                     alpha = rr / rr.max()
@@ -443,6 +505,67 @@ def correspond(ctx):
                 metas.append(('berr', meta))
                 lines.append(f'c07.bc2 {degr} {degc} {qs(sv["knots_r"])} {qs(sv["knots_c"])} {qs(sv["x"])} {qs(sv["z"])} {mat(sv["coef"])}')
                 metas.append(('bc', meta, sv['out'], float(np.max(np.abs(sv['coef'])))))
+    # the banded systems of pspline_iasls / pspline_drpls / pspline_aspls for every banded_solver (1-3: lower bands for iasls, 4: full
+    # bands), dyadic lam / user weights / alpha, sizes at the boundaries (few points per knot interval, d above and below the degree)
+    for host, kind in (('pspline_iasls', 'iasls'), ('pspline_drpls', 'drpls'), ('pspline_aspls', 'aspls')):
+        for deg in range(0, 6):
+            for _ in range(3 if not ctx.thorough else 8):
+                num_knots = int(rng.choice([2, 3, 4, 6, 9]))
+                nb = num_knots + deg - 1
+                dmin = 1 if kind == 'aspls' else 2
+                dmax = min(4, nb - 1)
+                if dmax < dmin:
+                    continue
+                d = int(rng.integers(dmin, dmax + 1))
+                pattern = patterns[int(rng.integers(0, len(patterns)))]
+                n = int(rng.choice([max(4, nb - 1), nb + 2, 25, 50]))
+                x = make_x(rng, pattern, n)
+                y = make_y(rng, x)
+                lam = float(2.0 ** int(rng.integers(-4, 14)))
+                uw = np.round(rng.uniform(0.05, 1, n) * 64) / 64
+                solver = int(rng.integers(1, 5))
+                kw = dict(lam=lam, diff_order=d, num_knots=num_knots, spline_degree=deg, max_iter=int(rng.integers(0, 3)), tol=0.0, weights=uw)
+                p1 = 0.0
+                if kind == 'iasls':
+                    p1 = float(2.0 ** int(rng.integers(-10, 5)))
+                    kw['lam_1'] = p1
+                if kind == 'drpls':
+                    p1 = float(rng.choice([0.0, 0.25, 0.5, 1.0]))
+                    kw['eta'] = p1
+                ualpha = None
+                if kind == 'aspls':
+                    ualpha = np.round(rng.uniform(0.1, 1, n) * 64) / 64
+                    kw['alpha'] = ualpha
+                fit = Baseline(x)
+                fit.banded_solver = solver
+                with Capture() as cap:
+                    try:
+                        with np.errstate(all='ignore'):
+                            getattr(fit, host)(y, **kw)
+                    except Exception as ex:
+                        ctx.count('asmx-raised:' + type(ex).__name__)
+                        continue
+                order = np.argsort(x, kind='mergesort')
+                ctx.case(('asmx', host, pattern, n, num_knots, deg, d, lam, p1, solver, kw['max_iter']), nontrivial=True,
+                         sample={'host': host + ' (banded system)', 'x': pattern, 'N': n, 'num_knots': num_knots, 'spline_degree': deg, 'diff_order': d,
+                                 'lam': lam, 'banded_solver': solver} if deg == 3 and _ == 0 else None)
+                ctx.count('asmx-host:' + host)
+                ctx.count('asmx-solver:%d' % solver)
+                ctx.count('asmx-d-vs-degree:' + ('d>deg' if d > deg else 'd<=deg'))
+                w_seq = [uw[order]] + list(cap.rules)
+                alpha = np.ones(n) if ualpha is None else ualpha[order]
+                for k, sv in enumerate(cap.solves):
+                    if k >= len(w_seq) or sv['system'] is None or not (np.all(np.isfinite(w_seq[k])) and np.all(np.isfinite(sv['out']))):
+                        break
+                    m = {'host': host, 'kind': kind, 'pattern': pattern, 'n': n, 'num_knots': num_knots, 'deg': deg, 'd': d, 'lam': lam, 'p1': p1,
+                         'solver': solver, 'step': k, 'x': x.tolist(), 'y': y.tolist(),
+                         'kw': {kk: (v.tolist() if isinstance(v, np.ndarray) else v) for kk, v in kw.items()}}
+                    lines.append(asmx_line(kind, sv, w_seq[k], alpha if kind == 'aspls' else [], p1))
+                    metas.append(('asmx', m, sv, kind, np.array(alpha if kind == 'aspls' else w_seq[k], copy=True), p1))
+                    ctx.count('asmx:' + kind)
+                    if kind == 'aspls':
+                        rr = np.abs(sv['y'] - sv['out'])
+                        alpha = rr / rr.max()
     # corpus
     for f in sorted(glob.glob(os.path.join(ROOT, 'corpus', 'C07_*.json'))):
         dd = json.load(open(f))
@@ -454,6 +577,7 @@ def correspond(ctx):
     ctx.traces += len(lines)
     worst = 0.0
     worst_bc = 0.0
+    worst_asm = 0.0
     for ln, r, mt in zip(lines, res, metas):
         meta = mt[1]
         if mt[0] == 'berr':
@@ -464,6 +588,19 @@ def correspond(ctx):
                 dis.append(Disagreement('c07.berr', f'{meta["host"]}:system', f'{meta["host"]} ({meta["pattern"]} x, N={meta["n"]}, num_knots={meta["num_knots"]}, '
                                         f'degree={meta["deg"]}, diff_order={meta["d"]}, lam={meta["lam"]}, step {meta["step"]}): the coefficients do not solve the '
                                         f'documented P-spline system for the weights in force (exact normwise backward error {be:.3g})', meta, True))
+        elif mt[0] == 'asmx':
+            sv, kind = mt[2], mt[3]
+            if '|' not in r:
+                dis.append(Disagreement('c07.model', f'model:asmx:{kind}', f'{meta["host"]}: the driver could not evaluate the assembly model ({r})',
+                                        {k: v for k, v in meta.items() if k not in ('x', 'y')}, False))
+                continue
+            why, err = asmx_compare(r, sv, kind, mt[4], mt[5])
+            worst_asm = max(worst_asm, err)
+            if why:
+                dis.append(Disagreement('c07.model', f'model:asmx:{kind}', f'{meta["host"]} ({meta["pattern"]} x, N={meta["n"]}, num_knots={meta["num_knots"]}, '
+                                        f'degree={meta["deg"]}, diff_order={meta["d"]}, lam={meta["lam"]}, banded_solver={meta.get("solver", "default")}, step '
+                                        f'{meta["step"]}): the banded system handed to the solver differs from the Lean assembly model: {why}',
+                                        meta, False))
         else:
             out, cmax = mt[2], mt[3]
             if ';' in r:
@@ -477,6 +614,7 @@ def correspond(ctx):
                                         f'the returned spline differs from B c evaluated from the definition (relative to max|c|: {err:.3g})', meta, True))
     ctx.notes.append(f'worst exact normwise backward error = {worst:.3g}; worst |returned - B c| / max|c| = {worst_bc:.3g}')
     ctx.hist['worst_backward_error_x1e16'] = int(worst * 1e16)
+    ctx.notes.append(f'worst |captured banded system - Lean assembly model| relative to the largest term = {worst_asm:.3g}')
     return dis
 
 
